@@ -2,6 +2,15 @@
 """Regenerates MANIFEST.json from the table below (keeps it valid at all times)."""
 import json, sys
 CHECKS = {
+ "C11": dict(level="fault_enumeration", design="4/C11",
+   text="Exhaustive fault enumeration over 40 rendered LEF texts (with and without lexical variation / non-ASCII comments) and the repository's macro.lef: every prefix at every character boundary, every single-token fault (delete, duplicate, swap, replace by 21 keywords/numbers/punctuation/unterminated string) at every token; proptest-driven insertion of multi-byte, odd-whitespace (VT, NEL, NBSP, EM SPACE, BOM, NUL) and delimiter characters anywhere; token soup with arbitrary Unicode scalars. Oracle: LefLibrary::open returns, also on its error-report path (panics caught in-process, aborts/hangs by the supervising process with CPU limit); an Ok library can be written and re-read without a crash; allocation at most doubles when the input doubles.",
+   note="Termination = returns before the 30 s in-flight watchdog / 20 s CPU in isolation; linear time approximated by allocation volume.",
+   technique="fault enumeration + property-based mutation; crash/hang oracle via supervised child processes"),
+ "C16": dict(level="exploration", design="4/C16",
+   text="Seeded proptest search over LEF libraries (1-5 macros, SIZE, pins with 1-3 ports, obstruction blocks, rectangles/polygons/paths with LAYER WIDTH, recurring layer names, coordinates with 0-4 significant decimals written with 0-6 decimals, negatives, x != y), 1 in 4 through rendered text and the reader: LefImporter::import must give one abstract cell per macro with outline (0,0),(X,0),(X,Y),(0,Y) and, per pin and for the obstructions, the LEF shapes grouped by layer name in order, every coordinate equal to value x 10000 computed on (mantissa, scale) integers; a coordinate with a non-zero digit beyond the fourth decimal must be an error.",
+   note="The importer's raw unit is the angstrom as documented; EXCEPTPGNET / non-zero SPACING / DESIGNRULEWIDTH / ITERATE / case-insensitive names are documented unsupported (error accepted).",
+   technique="property-based testing against an exact decimal-scaling reference model"),
+
  "C04": dict(level="exploration", design="4/C04",
    text="Seeded proptest search over LEF library values covering every supported statement, each rendered three times by an independent LEF renderer with random statement order (order within lists preserved), whitespace/newlines, ASCII and non-ASCII comments, keyword case and number spellings (trailing zeros, leading dot, redundant .0), versions 5.3-5.8, with/without END LIBRARY; LefLibrary::open must return exactly the value. Negative variants (END LIBRARY missing below 5.6, NAMESCASESENSITIVE / SOURCE above 5.4) must be errors.",
    note="Trusted base: the renderer harness/src/gen/lef.rs as the reading of the LEF syntax. Tokens whitespace-separated; names start with an ASCII letter and are not keywords; no '+'/exponent numbers; VERSION first.",
